@@ -124,7 +124,10 @@ func (db *PreparedStmtDB) prepare(ctx context.Context, conn ConnPool, isTransact
 	if err != nil {
 		cacheStmt.prepareErr = err
 		db.Mux.Lock()
-		delete(db.Stmts, query)
+		// evict only the entry cached above, it may have been replaced by another goroutine
+		if cur, ok := db.Stmts[query]; ok && cur == &cacheStmt {
+			delete(db.Stmts, query)
+		}
 		db.Mux.Unlock()
 		return Stmt{}, err
 	}
@@ -165,7 +168,10 @@ func (db *PreparedStmtDB) ExecContext(ctx context.Context, query string, args ..
 			db.Mux.Lock()
 			defer db.Mux.Unlock()
 			go stmt.Close()
-			delete(db.Stmts, query)
+			// evict only the statement that failed, the entry may have been replaced meanwhile
+			if cur, ok := db.Stmts[query]; ok && cur.Stmt == stmt.Stmt {
+				delete(db.Stmts, query)
+			}
 		}
 	}
 	return result, err
@@ -180,7 +186,10 @@ func (db *PreparedStmtDB) QueryContext(ctx context.Context, query string, args .
 			defer db.Mux.Unlock()
 
 			go stmt.Close()
-			delete(db.Stmts, query)
+			// evict only the statement that failed, the entry may have been replaced meanwhile
+			if cur, ok := db.Stmts[query]; ok && cur.Stmt == stmt.Stmt {
+				delete(db.Stmts, query)
+			}
 		}
 	}
 	return rows, err
@@ -234,7 +243,10 @@ func (tx *PreparedStmtTX) ExecContext(ctx context.Context, query string, args ..
 			defer tx.PreparedStmtDB.Mux.Unlock()
 
 			go stmt.Close()
-			delete(tx.PreparedStmtDB.Stmts, query)
+			// evict only the statement that failed, the entry may have been replaced meanwhile
+			if cur, ok := tx.PreparedStmtDB.Stmts[query]; ok && cur.Stmt == stmt.Stmt {
+				delete(tx.PreparedStmtDB.Stmts, query)
+			}
 		}
 	}
 	return result, err
@@ -249,7 +261,10 @@ func (tx *PreparedStmtTX) QueryContext(ctx context.Context, query string, args .
 			defer tx.PreparedStmtDB.Mux.Unlock()
 
 			go stmt.Close()
-			delete(tx.PreparedStmtDB.Stmts, query)
+			// evict only the statement that failed, the entry may have been replaced meanwhile
+			if cur, ok := tx.PreparedStmtDB.Stmts[query]; ok && cur.Stmt == stmt.Stmt {
+				delete(tx.PreparedStmtDB.Stmts, query)
+			}
 		}
 	}
 	return rows, err
